@@ -32,6 +32,9 @@ def split(stream, cuts):
         out.append(stream[prev:c])
         prev = c
     out.append(stream[prev:])
+    for n in ([125] if tier == "quick" else [124, 125, 123]):
+        out.append(Obl("chunk.ascii.rsp.max-size[%d].cuts1" % n, make_big_ascii(n), timeout=T * 2, contracts=("lrc",), lemmas=("K2",),
+                       bounds="ASCII framing, a %d-register read response (%d characters) followed by a short frame; unit, first and last registers symbolic, other registers a fixed pattern; one cut at each of ~20 positions incl. the last 10 of the big frame" % (n, 2 * (2 * n + 3) + 5)))
     return out
 
 
@@ -101,6 +104,44 @@ def make_chunk(framing, specs, shapes, ncuts, single_bytes=False):
     return chunk
 
 
+def make_big_ascii(nregs):
+    """a maximum-size ASCII frame (read-registers response with nregs registers): unit, the first two and the last two
+    registers symbolic, the rest a fixed pattern; one cut at every position of a spread that includes the last 10"""
+    def big(u: int, e: bytes) -> bool:
+        from pymodbus.factory import ClientDecoder
+        assume(len(e) == 8)
+        assume(1 <= u <= 247)
+        mid = bytes((i * 7 + 3) % 256 for i in range(2 * nregs - 8))
+        body = bytes([2 * nregs]) + e[0:4] + mid + e[4:8]
+        frame = adu.ref_adu("ascii", bytes([3]) + body, u)
+        small = adu.ref_adu("ascii", bytes([3, 2, e[0], e[1]]), u)
+        stream = frame + small
+        L = len(frame)
+        cuts = sorted(set([1, 2, 9, L // 3, L // 2, L - 40] + list(range(L - 10, L + 1)) + [L + 3]))
+        F = adu.framer_class("ascii")
+        for c in cuts:
+            rx = F(ClientDecoder())
+            got = []
+            for chunk in (stream[:c], stream[c:]):
+                try:
+                    rx.processIncomingPacket(chunk, got.append, u)
+                except Exception as ex:
+                    explain("cut %d: %s escaped: %s", c, type(ex).__name__, ex)
+                    return False
+            if len(got) != 2:
+                explain("cut at %d of a %d-character frame: %d messages delivered instead of 2", c, L, len(got))
+                return False
+            r = got[0]
+            if type(r).__name__ != "ReadHoldingRegistersResponse" or len(r.registers) != nregs:
+                return False
+            if r.registers[0] != e[0] * 256 + e[1] or r.registers[nregs - 1] != e[6] * 256 + e[7]:
+                return False
+            if got[1].registers != [e[0] * 256 + e[1]]:
+                return False
+        return True
+    return big
+
+
 CONTRACTS = {"tcp": (), "rtu": ("crc",), "binary": ("crc",), "ascii": ("lrc",)}
 LEMMAS = {"tcp": (), "rtu": ("K1",), "binary": ("K1",), "ascii": ("K2",)}
 
@@ -148,4 +189,7 @@ def obligations(tier):
                     out.append(Obl(name, make_chunk(framing, specs, shapes, 0, single_bytes=True), timeout=T, contracts=contracts,
                                    lemmas=LEMMAS[framing], whole_finding=whole(framing, len(names), 99),
                                    bounds="%s framing, %d frame(s), delivered one byte per read" % (framing, len(names))))
+    for n in ([125] if tier == "quick" else [124, 125, 123]):
+        out.append(Obl("chunk.ascii.rsp.max-size[%d].cuts1" % n, make_big_ascii(n), timeout=T * 2, contracts=("lrc",), lemmas=("K2",),
+                       bounds="ASCII framing, a %d-register read response (%d characters) followed by a short frame; unit, first and last registers symbolic, other registers a fixed pattern; one cut at each of ~20 positions incl. the last 10 of the big frame" % (n, 2 * (2 * n + 3) + 5)))
     return out
